@@ -192,6 +192,10 @@ def check_against_rfc(case, result):
     ev = result["events"]
     role = case["role"]
     probs = []
+    for k, (want_v, got_v) in sorted((result.get("config_mismatch") or {}).items()):
+        # the verdicts below would be relative to a configuration the protocol does not have
+        return [(f"config/{role}/{k}", f"setProtocolOptions({k}={want_v!r}) ({case.get('config_style') or 'one call for all options'}): "
+                                       f"after the handshake the protocol works with {k}={got_v!r}")]
     if any(e[0] == "escaped" for e in ev):
         return [(f"{role}/escaped/{[e[1] for e in ev if e[0] == 'escaped'][0]}", "an exception left dataReceived")]
     # the point where the implementation reacted to a close / violation: first close frame written or TCP drop
@@ -311,6 +315,82 @@ def env_for(fw):
     return _ENV
 
 
+# ---------- the three receive APIs ----------
+#
+# "message":   the application overrides onMessage only (what every other case of this driver does)
+# "frame":     the application overrides onMessageBegin / onMessageFrame / onMessageEnd
+# "streaming": the application overrides onMessageBegin / onMessageFrameBegin / onMessageFrameData /
+#              onMessageFrameEnd / onMessageEnd
+# The overrides are shaped like the shipped examples (examples/*/websocket/streaming/frame_based_server.py and
+# streaming_server.py): onMessageBegin and onMessageFrameBegin chain to the base class, the other hooks do NOT.
+# What the application has seen when its onMessageEnd runs is reported through the observer's onMessage, so that
+# the event log has the same form under the three APIs.
+
+class FrameApi:
+    def onMessageBegin(self, isBinary):
+        super().onMessageBegin(isBinary)
+        self._app_bin, self._app_parts = isBinary, []
+
+    def onMessageFrame(self, payload):
+        for data in payload:
+            self._app_parts.append(bytes(data))
+
+    def onMessageEnd(self):
+        self.onMessage(b"".join(self._app_parts), self._app_bin)
+        self._app_parts = None
+
+
+class StreamingApi:
+    def onMessageBegin(self, isBinary):
+        super().onMessageBegin(isBinary)
+        self._app_bin, self._app_parts = isBinary, []
+
+    def onMessageFrameBegin(self, length):
+        super().onMessageFrameBegin(length)
+
+    def onMessageFrameData(self, payload):
+        self._app_parts.append(bytes(payload))
+
+    def onMessageFrameEnd(self):
+        pass
+
+    def onMessageEnd(self):
+        self.onMessage(b"".join(self._app_parts), self._app_bin)
+        self._app_parts = None
+
+
+API_MIXINS = {None: None, "message": None, "frame": FrameApi, "streaming": StreamingApi}
+
+# every scalar option of the two factories; the effective value is read from the PROTOCOL after the handshake
+OPTION_VECTOR = {
+    "common": ["utf8validateIncoming", "applyMask", "maxFramePayloadSize", "maxMessagePayloadSize",
+               "autoFragmentSize", "failByDrop", "echoCloseCodeReason", "openHandshakeTimeout",
+               "closeHandshakeTimeout", "tcpNoDelay", "autoPingInterval", "autoPingTimeout", "autoPingSize",
+               "autoPingRestartOnAnyTraffic"],
+    "server": ["requireMaskedClientFrames", "maskServerFrames", "webStatus", "serveFlashSocketPolicy",
+               "allowNullOrigin", "maxConnections", "trustXForwardedFor"],
+    "client": ["acceptMaskedServerFrames", "maskClientFrames", "serverConnectionDropTimeout"],
+}
+
+
+def run_config(fw, case):
+    """configuration plumbing: apply the given setProtocolOptions() calls one after the other to a fresh factory,
+    connect, complete the opening handshake, and report the options the protocol object works with"""
+    wsdrv, env = env_for(fw)
+    role = case["role"]
+    conn = env.connect(role, options=None)
+    for kw in case["config_calls"]:
+        conn.factory.setProtocolOptions(**kw)
+    conn.handshake()
+    assert conn.state() == "OPEN", conn.state()
+    vec = {}
+    for k in OPTION_VECTOR["common"] + OPTION_VECTOR[role]:
+        v = getattr(conn.proto, k, "<missing>")
+        vec[k] = v if isinstance(v, (bool, int, float, str)) or v is None else repr(v)
+    conn.lost(clean=True)
+    return {"options": vec}
+
+
 def make_conn(fw, case):
     wsdrv, env = env_for(fw)
     role = case["role"]
@@ -340,8 +420,17 @@ def make_conn(fw, case):
             opts["perMessageCompressionOffers"] = [PerMessageDeflateOffer()]
             opts["perMessageCompressionAccept"] = accept
         extra = b"Sec-WebSocket-Extensions: permessage-deflate\r\n"
-    conn = env.connect(role, options=opts)
+    style = case.get("config_style")
+    if style in ("each", "each-rev"):
+        # one setProtocolOptions() call per option, in the order written above or reversed
+        conn = env.connect(role, options=None, protocol_mixin=API_MIXINS[case.get("api")])
+        for k in (list(opts) if style == "each" else list(reversed(list(opts)))):
+            conn.factory.setProtocolOptions(**{k: opts[k]})
+    else:
+        conn = env.connect(role, options=opts, protocol_mixin=API_MIXINS[case.get("api")])
     conn.handshake(extra_headers=extra)
+    conn.config_mismatch = {k: [v, getattr(conn.proto, k, "<missing>")] for k, v in opts.items()
+                            if isinstance(v, (bool, int)) and getattr(conn.proto, k, "<missing>") != v}
     assert (conn.proto._perMessageCompress is not None) == bool(case["pmc"]), "compression negotiation failed"
     if case["closing"]:
         conn.call("sendClose", 1000)
@@ -364,7 +453,104 @@ def retained_octets(proto):
     return {k: size(getattr(proto, k, None)) for k in ("data", "frame_data", "message_data", "control_frame_data")}
 
 
+# ---------- the send APIs ----------
+
+def send_payload(op):
+    """deterministic payload of a send operation: "flat" compresses to a few octets, "noise" does not compress"""
+    n = op["len"]
+    if op["kind"] == "noise":
+        import random
+        return random.Random(1000003 * n + op.get("seed", 0)).randbytes(n)
+    return bytes(0x41 + ((i // 7 + op.get("seed", 0)) % 3) for i in range(n))
+
+
+def run_sends(wsdrv, conn, ops):
+    """perform the send operations one after the other; per operation: what it raised (class name or None) and the
+    octets it wrote.  Then read ALL octets written the way a peer does: an independent frame parser, and, for
+    messages with RSV1, ONE raw-deflate inflater for the whole connection (context takeover is on by default)."""
+    import zlib
+    out, wire = [], b""
+    for op in ops:
+        payload = send_payload(op)
+        binary = bool(op.get("binary", True))
+        n0 = len(conn.log)
+        api = op["api"]
+        if api == "message":
+            kw = {}
+            if op.get("fragment"):
+                kw["fragmentSize"] = op["fragment"]
+            if op.get("dnc"):
+                kw["doNotCompress"] = True
+            conn.call("sendMessage", payload, binary, **kw)
+        elif api == "prepared":
+            try:
+                pm = conn.factory.prepareMessage(payload, binary, doNotCompress=bool(op.get("dnc")))
+            except BaseException as e:
+                conn.log.append(["raised", "prepare:" + type(e).__name__, str(e)[:200]])
+                pm = None
+            if pm is not None:
+                conn.call("sendPreparedMessage", pm)
+        elif api == "frames":
+            # frame-wise sending: beginMessage / sendMessageFrame ... / endMessage
+            conn.call("beginMessage", binary)
+            k = max(1, op.get("fragment") or len(payload) or 1)
+            for i in range(0, max(1, len(payload)), k):
+                conn.call("sendMessageFrame", payload[i:i + k])
+            conn.call("endMessage")
+        else:
+            raise ValueError(api)
+        raised = [e[1] for e in conn.log[n0:] if e[0] in ("raised", "escaped")]
+        written = b"".join(bytes.fromhex(e[1]) for e in conn.log[n0:] if e[0] == "write")
+        wire += written
+        out.append({"raised": raised[0] if raised else None, "wrote": len(written), "payload": payload.hex()})
+    peer, err = [], None
+    try:
+        frames, rest = wsdrv.parse_frames(wire)
+        if rest:
+            err = "incomplete frame at the end of the octets written"
+    except ValueError as e:
+        frames, err = [], "unparsable frame: %s" % e
+    inflater = zlib.decompressobj(-15)
+    cur = None
+    for f in frames:
+        if err:
+            break
+        if f["opcode"] in (1, 2):
+            if cur is not None:
+                err = "new data frame inside a fragmented message"
+                break
+            cur = {"bin": f["opcode"] == 2, "rsv1": bool(f["rsv"] & 4), "data": b""}
+            if f["rsv"] & 3:
+                err = "RSV2/RSV3 set"
+                break
+        elif f["opcode"] == 0:
+            if cur is None:
+                err = "continuation frame outside a message"
+                break
+            if f["rsv"]:
+                err = "RSV set on a continuation frame"
+                break
+        else:
+            continue                   # control frames are not the subject here
+        cur["data"] += f["payload"]
+        if f["fin"]:
+            data = cur["data"]
+            if cur["rsv1"]:
+                try:
+                    data = inflater.decompress(data + b"\x00\x00\xff\xff")
+                except zlib.error as e:
+                    err = "the peer's inflater fails: %s" % e
+                    break
+            peer.append([data.hex(), cur["bin"]])
+            cur = None
+    if cur is not None and not err:
+        err = "unfinished message at the end of the octets written"
+    return {"ops": out, "peer": peer, "peer_error": err}
+
+
 def run_case(fw, case):
+    if "config_calls" in case:
+        return run_config(fw, case)
     wsdrv, conn = make_conn(fw, case)
     n0 = len(conn.log)
     tape = []
@@ -387,6 +573,7 @@ def run_case(fw, case):
     if "send" in case:
         conn.call("sendMessage", b"x" * case["send"]["len"], bool(case["send"]["binary"]))
     ev = canon_log(conn.log[n0:], wsdrv)
+    sends = run_sends(wsdrv, conn, case["sends"]) if "sends" in case else None
     state = conn.state()
     close = None
     if not case.get("nolost"):
@@ -400,6 +587,10 @@ def run_case(fw, case):
     res = {"events": ev, "state": state, "close": close, "tape": tape}
     if retained is not None:
         res["retained"] = retained
+    if sends is not None:
+        res["sends"] = sends
+    if conn.config_mismatch:
+        res["config_mismatch"] = conn.config_mismatch
     return res
 
 
